@@ -901,6 +901,16 @@ static unsigned long __plthook_entry(unsigned long *ret_addr, unsigned long chil
 			goto out;
 	}
 
+	if (unlikely(mtdp->in_exception)) {
+		/*
+		 * called from a landing pad (e.g. by an inlined destructor):
+		 * like __mcount_entry(), drop the frames unwound so far -
+		 * their return slots are at or below ours.
+		 */
+		mcount_rstack_rehook_exception(mtdp, (unsigned long)ret_addr);
+		mtdp->in_exception = false;
+	}
+
 	if (mcount_estimate_return)
 		mcount_rstack_inject_return(mtdp, ret_addr, sym->addr);
 
